@@ -89,7 +89,8 @@ def signature(fid, f, sh):
     """coarse decidable predicate on the failing input, independent of the model"""
     idx, frm, lim, filt = f[1], int(f[3]), int(f[4]), f[8]
     if fid == "C08-scan-equality-not-canonical":
-        return any(re.search(r"[:,\[]f\d|[:,\[]t\d", t or "") for t in sh.texts.values())
+        # a float / time value in a body, a special float, or an integer beyond float64's exact range
+        return any(re.search(r"[:,\[]f[-+N\d]|[:,\[]t\d|[iu]-?\d{16,}", t or "") for t in sh.texts.values())
     if fid == "C08-special-path-hinted":
         return "[*]" in filt or "#len" in filt
     if fid == "C08-paging-before-residual":
